@@ -469,6 +469,69 @@ def check_generated_parts(hist):
     return None
 
 
+BUILTIN_CASES = [(gen, leaves, hist) for gen in ("Wrapper", "Series1", "Series2", "Series3") for leaves in (1, 2)
+                 for hist in ("elaborate", "to_proto", "below-parent", "failed-parent")]
+
+
+def check_builtin_over_used_unit(case):
+    """Wrapper / Series over a unit with a bundle-valued port (of one leaf, of two): the generated module's package is the
+    same whether the unit went through elaboration before (alone, below a parent, below a parent that FAILED) or never"""
+    import hdl21 as h
+    from hdl21.generators import Wrapper, Series
+    gen, leaves, hist = case
+    w = {"builtin_case": repr(case)}
+
+    def build(history):
+        B = h.Bundle(name="BuB")
+        B.add(h.Signal(name="en"))
+        if leaves == 2:
+            B.add(h.Signal(name="d", width=2))
+        u = h.Module(name="BuUnit")
+        u.i, u.o = h.Port(), h.Port()
+        u.ctl = B(port=True)
+        u.r = h.R(r=1)(p=u.i, n=u.o)
+        u.c = h.C(c=1)(p=u.ctl.en, n=u.o)
+        if history == "elaborate":
+            h.elaborate(u)
+        elif history == "to_proto":
+            h.to_proto(u)
+        elif history in ("below-parent", "failed-parent"):
+            p = h.Module(name="BuParent")
+            p.s = h.Signal()
+            p.bb = B()
+            p.u = u(i=p.s, o=p.s, ctl=p.bb)
+            if history == "failed-parent":
+                p.w3 = h.Signal(width=3)
+                p.arr = 2 * h.R(r=1)(p=p.w3, n=p.s)
+                try:
+                    h.elaborate(p)
+                except Exception:
+                    pass
+                else:
+                    raise AssertionError("the bad parent was accepted")
+            else:
+                h.to_proto(p)
+        if gen == "Wrapper":
+            return Wrapper(u)
+        return Series(unit=u, conns=("i", "o"), nser=int(gen[-1]))
+
+    def outcome(history):
+        try:
+            m = build(history)
+            return ("package", h.to_proto(m).SerializeToString(deterministic=True))
+        except AssertionError:
+            raise
+        except Exception as e:
+            return ("raised", type(e).__name__ + ": " + str(e)[-120:])
+    fresh, got = outcome("none"), outcome(hist)
+    if fresh[0] != "package":
+        return ("builtin.harness", f"{case!r}: without history: {fresh}", w)
+    if got != fresh:
+        return ("builtin.differs", f"{gen} over a unit that went through `{hist}`: "
+                                   f"{got if got[0] == 'raised' else 'another package'}; without history it exports", w)
+    return None
+
+
 def check_misc(case, refs):
     try:
         return _check_misc(case, refs)
@@ -623,6 +686,10 @@ def run(ctx):
                          "generator; bundle-valued ports), with an elaborate / to_proto / netlist of the first part, of the "
                          "generated module, of a list, or a failing list call in between: package == the one written in one go",
                     bound="8 histories", key_of=repr)
+    ctx.run_bounded("built-in-generators-over-used-units", BUILTIN_CASES, check_builtin_over_used_unit,
+                    rule="Wrapper / Series (nser 1-3) over a unit with a bundle-valued port of one or two leaves x the unit "
+                         "elaborated, exported, used below a parent, or below a parent whose elaboration failed late: package == "
+                         "the one without history", bound="4 generators x 2 bundles x 4 histories", key_of=repr)
     ctx.run_bounded("new-parents-over-used-children", [(k, hh) for k in PARENT_KINDS for hh in CHILD_HISTORIES], check_new_parent,
                     rule="17 new parents (valid: same / equal bundle type, anonymous bundle, sub-bundle reference, no-connect, "
                          "port reference; invalid: a bundle type with an extra or missing signal / extra sub-bundle / wider "
@@ -638,6 +705,10 @@ def run(ctx):
 def replay(payload):
     import hdl21 as h
     inp = payload.get("input") or {}
+    if "builtin_case" in inp:
+        r = check_builtin_over_used_unit(eval(inp["builtin_case"]))
+        print("replay:", r)
+        return 1 if r else 0
     if "generated_parts" in inp:
         r = check_generated_parts(inp["generated_parts"])
         print("replay:", r)
